@@ -2698,9 +2698,13 @@ fn generate_constraints_expr(
             }
         }
         ExprKind::TaskBlock(block) => {
-            // a task body runs on its own thread: an enclosing loop is not its loop
+            // a task body runs on its own thread: an enclosing loop is not its loop,
+            // and it has no enclosing function to return from (`return` ends the task,
+            // `?` is rejected as at the top level)
             ctx.loop_stack.push(None);
+            let enclosing_func_rets = std::mem::take(&mut ctx.func_ret_stack);
             generate_constraints_expr(ctx, polyvar_scope, Mode::Syn, block);
+            ctx.func_ret_stack = enclosing_func_rets;
             ctx.loop_stack.pop();
             constrain(
                 ctx,
